@@ -14,7 +14,7 @@ import tempfile
 import warnings
 
 
-def main(repo, data_dir, out, order='f'):
+def main(repo, data_dir, out, order='f', mode='full'):
     sys.path.insert(0, repo)
     import wn
     import wn.taxonomy
@@ -95,6 +95,8 @@ def main(repo, data_dir, out, order='f'):
                     [lx.specifier()] + [x.specifier() for x in exts])}))
         # results must not depend on which session was served first (no state may leak
         # between read-only calls): the visiting order differs between passes and processes
+        if mode == 'light':
+            sessions = sessions[:2]
         for name, kw in (reversed(sessions) if reverse else sessions):
             try:
                 w = wn.Wordnet(**kw)
@@ -108,8 +110,22 @@ def main(repo, data_dir, out, order='f'):
             s['senses'] = c(senses)
             s['synsets'] = c(synsets)
             sel_words, sel_syn = words[:4], synsets[:5]
+            all_words = words
             # arguments must be identical in every pass: build them before any reordering
             corpus = [str(x.lemma()) for x in words] * 2 + ['unknown-token', 'cat']
+            # a corpus whose size crosses the thresholds small corpora never reach
+            big_corpus = []
+            primes = [1, 2, 3, 5, 7, 11, 13, 17, 19, 23, 29]
+            j = 0
+            for x in all_words:
+                lem = str(x.lemma())
+                for variant in (lem, lem.lower(), lem.upper(), lem.title()):
+                    big_corpus += [variant] * primes[j % len(primes)]
+                    j += 1
+            big_corpus += ['tok%d' % i for i in range(1100)]
+            if mode == 'light':
+                words, senses, synsets = words[:8], senses[:8], synsets[:8]
+                sel_syn = synsets[:3]
             if reverse:
                 # entities are visited in another order too (results are keyed by lexicon
                 # and id): no answer may depend on which entity was asked first
@@ -143,15 +159,20 @@ def main(repo, data_dir, out, order='f'):
                     call(x.min_depth), call(x.max_depth), call(x.max_depth, True),
                     call(x.translate), call(x.metadata)]
             # taxonomy / similarity over pairs
-            for pos in ('n', 'v', 'a', 's', 'r'):
+            for pos in (('n', 'v', 'a', 's', 'r') if mode != 'light' else ()):
                 s['roots:' + pos] = call(wn.taxonomy.roots, w, pos)
                 s['leaves:' + pos] = call(wn.taxonomy.leaves, w, pos)
                 s['depth:' + pos] = call(wn.taxonomy.taxonomy_depth, w, pos)
             freq = None
             try:
+                if mode == 'light':
+                    corpus = corpus[:40]
                 freq = wn.ic.compute(corpus, w, distribute_weight=True, smoothing=1.0)
                 s['ic'] = c(freq)
-                s['ic2'] = call(wn.ic.compute, corpus, w, False, 0.5)
+                if mode != 'light':
+                    s['ic2'] = call(wn.ic.compute, corpus, w, False, 0.5)
+                if name == '*default*' or name.endswith('/expandall') or mode == 'light':
+                    s['ic_big'] = call(wn.ic.compute, big_corpus, w, True, 1.0)
             except Exception as e:
                 s['ic'] = ['exc', type(e).__name__]
             pairs = [(a, b) for a in sel_syn for b in sel_syn]
@@ -194,10 +215,10 @@ def main(repo, data_dir, out, order='f'):
         # lmf dump / export / validate
         tmp = tempfile.mkdtemp(prefix='battery-')
         try:
-            for lx in lexs:
+            for lx in (lexs if mode != 'light' else lexs[:1]):
                 if lx.extends() is not None:
                     continue
-                for v in ('1.0', '1.1', '1.3'):
+                for v in (('1.0', '1.1', '1.3') if mode != 'light' else ('1.0',)):
                     p = os.path.join(tmp, 'x.xml')
                     try:
                         wn.export([lx], p, version=v)
@@ -246,4 +267,4 @@ def main(repo, data_dir, out, order='f'):
 
 
 if __name__ == '__main__':
-    main(*sys.argv[1:5])
+    main(*sys.argv[1:6])
